@@ -5,6 +5,7 @@ import itertools
 import sys
 
 from common import Case, W, errname, plist, optint, rand_value, harvest_literals
+import common
 import platform_cases
 import netaddr
 from netaddr import IPNetwork, IPAddress, IPRange, IPGlob, iter_iprange
@@ -52,7 +53,7 @@ def _build(o):
         return IPNetwork((o[2], o[3]), version=o[1])
     if k == 'R':
         return IPRange(IPAddress(o[2], o[1]), IPAddress(o[3], o[1]))
-    return IPGlob(o[3])
+    return common.make_glob(o[3])
 
 
 def _glob(prefix_octets, x, y):
